@@ -7,6 +7,7 @@ from fractions import Fraction
 import qenv  # noqa: F401
 import torch
 from exact import FMT, FMT_NAME, codes_of, from_fractions, pow2, to_fractions
+from total import total
 from optimum.quanto import qtypes, quantize_activation
 from optimum.quanto.tensor.quantizers import SymmetricQuantizer
 
@@ -37,12 +38,24 @@ def layout(x, variant):
     return x
 
 
+class Unrepresentable(Exception):
+    """the numbers TLC chose do not exist in this float format (decided before any call into quanto)"""
+
+
 def run_elem_batch(qt, w, fe, fmt, k, ns, variant, route):
     dtype = FMT[fmt]
     unit = pow2(k + fe)
-    x = from_fractions([Fraction(n) * unit for n in ns], dtype)
-    x = layout(x, variant)
-    scale = from_fractions([pow2(k)], dtype).reshape(())
+    try:
+        x = from_fractions([Fraction(n) * unit for n in ns], dtype)
+        x = layout(x, variant)
+        scale = from_fractions([pow2(k)], dtype).reshape(())
+    except ValueError as e:
+        raise Unrepresentable(str(e))
+    return _elem_batch(qt, w, fe, fmt, k, ns, route, x, scale, unit)
+
+
+@total("SymQ", describe=lambda qt, w, fe, fmt, k, ns, route, x, scale, unit: {"qt": qt, "fmt": fmt, "k": k, "route": route, "shape": list(x.shape), "n": len(ns)})
+def _elem_batch(qt, w, fe, fmt, k, ns, route, x, scale, unit):
     qtype = qtypes[qt]
     if route == "activation":
         q = quantize_activation(x, qtype, scale)
@@ -64,12 +77,20 @@ def run_tensor_case(c, fmt, k0, variant):
     shape, axis = c["shape"], c["axis"]
     units = [pow2(k0 + c["ks"][si] + fe) for si in c["sidx"]]
     vals = [Fraction(n) * u for n, u in zip(c["ns"], units)]
-    x = from_fractions(vals, dtype, shape)
-    if variant == 1:   # non-contiguous memory layout, same logical tensor
-        x = x.transpose(0, -1).contiguous().transpose(0, -1)
-    sshape = [1] * len(shape)
-    sshape[0 if axis == 0 else -1] = len(c["ks"])
-    scale = from_fractions([pow2(k0 + kk) for kk in c["ks"]], dtype, sshape)
+    try:
+        x = from_fractions(vals, dtype, shape)
+        if variant == 1:   # non-contiguous memory layout, same logical tensor
+            x = x.transpose(0, -1).contiguous().transpose(0, -1)
+        sshape = [1] * len(shape)
+        sshape[0 if axis == 0 else -1] = len(c["ks"])
+        scale = from_fractions([pow2(k0 + kk) for kk in c["ks"]], dtype, sshape)
+    except ValueError as e:
+        raise Unrepresentable(str(e))
+    return _tensor_case(c, fmt, k0, qt, w, axis, x, scale, units)
+
+
+@total("SymQ", describe=lambda c, fmt, k0, qt, w, axis, x, scale, units: {"qt": qt, "fmt": fmt, "k": k0, "axis": axis, "shape": list(x.shape), "route": "quantizer-per-axis"})
+def _tensor_case(c, fmt, k0, qt, w, axis, x, scale, units):
     qtype = qtypes[qt]
     q = SymmetricQuantizer.apply(x, qtype, axis, scale)
     dq = q.dequantize()
@@ -96,7 +117,7 @@ def main():
             gi += 1
             try:
                 ev = run_elem_batch(qt, w, fe, fmt, k, ns[i:i + bsz], gi % 4, "activation" if gi % 2 else "quantizer")
-            except ValueError:
+            except Unrepresentable:
                 skipped += 1      # TLC's Representable and the real format disagree: machinery problem
                 continue
             traces.append([ev])
@@ -107,10 +128,11 @@ def main():
                 for variant in (0, 1):
                     try:
                         ev = run_tensor_case(c, fmt, k0, variant)
-                    except ValueError:
+                    except Unrepresentable:
                         continue       # not representable in this format: skipped, counted
                     want = [[int(a), int(b)] for a, b in c["codes"]]
-                    ev["tlc_codes_equal"] = ev["codes"] == want
+                    if ev["act"] != "Raised":
+                        ev["tlc_codes_equal"] = ev["codes"] == want
                     traces.append([ev])
                     tcount += 1
     json.dump({"traces": traces, "unrepresentable_batches": skipped, "tensor_events": tcount}, open(sys.argv[2], "w"))
